@@ -75,33 +75,70 @@ def cellsize(check):
         _decide(check, "DT-CELLSIZE", f.qualname, f.loc(), A, got["ldim"], dx * dy / (dx + dy), "2D cell size == dx*dy/(dx+dy)", key="ldim2d")
         if got["data"] != "FIELD-DATA":
             check.violation("DT-CELLSIZE", f.qualname, "timestep is not computed from the field's data", f.loc(), key="data2d")
-    # 1D: xf[c+1]-xf[c] passed with the field data and the CFL number
+    # 1D: xf[c+1]-xf[c] passed with the field data and the CFL number; the call is interpreted on
+    # the abstract 1D discretisation (symbolic ncell, free face array) and the cell-size argument
+    # is compared, element by element, with the width of the same cell
+    from ..disc1d import Disc1D, N
+    from ..stencil import SArr
     c1 = proj.cls("modeldisc.fvm1d")
     f1 = proj.resolve(c1, "calc_timestep")
-    try:
-        from ..stencil import decode_1d_expr
-    except ImportError:
-        decode_1d_expr = None
-    call = None
-    for n in ast.walk(f1.node):
-        if isinstance(n, ast.Call) and isinstance(n.func, ast.Attribute) and n.func.attr == "timestep":
-            call = n
-    if call is None or len(call.args) != 3:
-        check.violation("DT-CELLSIZE", f1.qualname, "model.timestep(data, dx, cfl) call not found", f1.loc(), key="nocall1d")
+    d = Disc1D(proj, neq=1, periodic=True)
+    A1 = d.alg
+    got1 = {}
+
+    def timestep1(data, ldim, cond):
+        got1["ldim"], got1["data"], got1["cond"] = ldim, data, cond
+        return A1.sym("dt")
+    d.so.attrs["model"] = ObjStub("model", {"timestep": timestep1})
+    cfl1 = A1.sym("cfl", positive=True)
+    d.fvm("calc_timestep", ObjStub("field", {"data": "FIELD-DATA"}), cfl1)
+    if "ldim" not in got1:
+        check.violation("DT-CELLSIZE", f1.qualname, "model.timestep is not called", f1.loc(), key="nocall1d")
         return
-    a0, a1, a2 = call.args
-    ok0 = unparse(a0) == "%s.data" % f1.params[1]
-    ok2 = isinstance(a2, ast.Name) and a2.id == f1.params[2]
-    if not ok0 or not ok2:
-        check.violation("DT-CELLSIZE", f1.qualname, "timestep is called with (%s, ..., %s), expected the field data and the CFL argument" % (unparse(a0), unparse(a2)), f1.loc(), key="args1d")
-    if decode_1d_expr is not None:
-        r = decode_1d_expr(proj, c1, f1, a1)
-        if r is True:
-            check.ok("DT-CELLSIZE", f1.qualname, "1D cell size decodes to xf[c+1]-xf[c] for c in [0, nelem)", f1.loc())
-        elif r is None:
-            check.undecided("DT-CELLSIZE", f1.qualname, "cell-size expression %s not decoded" % unparse(a1), f1.loc())
+    if got1["data"] != "FIELD-DATA" or got1["cond"] is not cfl1:
+        check.violation("DT-CELLSIZE", f1.qualname, "timestep is not called with the field data and the CFL argument", f1.loc(), key="args1d")
+    w = got1["ldim"]
+    want = d.stn.rel("xf", 1) - d.stn.rel("xf", 0)
+    if not isinstance(w, SArr):
+        check.violation("DT-CELLSIZE", f1.qualname, "cell-size argument is %r, not one width per cell" % (w,), f1.loc(), key="dx1d")
+    elif w.length != N:
+        check.violation("DT-CELLSIZE", f1.qualname, "cell-size argument has %r entries, expected one per cell" % (w.length,), f1.loc(), key="dx1d")
+    else:
+        bad = [(l, h, v) for l, h, v in w.segs if not A1.equal(v, want)]
+        if not bad:
+            check.ok("DT-CELLSIZE", f1.qualname, "1D cell size decodes to xf[c+1]-xf[c] for every cell c in [0, ncell) of an arbitrary face array", f1.loc())
         else:
-            check.violation("DT-CELLSIZE", f1.qualname, "cell-size argument %s is not the cell width xf[c+1]-xf[c]: %s" % (unparse(a1), r), f1.loc(), key="dx1d")
+            l, h, v = bad[0]
+            check.violation("DT-CELLSIZE", f1.qualname, "cell-size argument is %s for cells [%r,%r), not the cell's own width xf[c+1]-xf[c]: the step of a cell depends on its neighbours' sizes" % (A1.show(v) if hasattr(A1, "show") else v, l, h), f1.loc(), key="dx1d")
+
+
+def local_update(check):
+    """'with the local-time-step directive, each cell's own value': the state update of one step
+    must be multiplied by the step argument itself (an array under `dtlocal`), not by its
+    minimum or any other reduction; decided on the affine abstraction of every explicit step()"""
+    from .c05 import explicit_classes
+    from ..affine import run_step
+    from .. import rk
+    proj = check.proj
+    classes = explicit_classes(proj)
+    check.floor("explicit integrator classes", len(classes), 10)
+    for c in classes:
+        stepf = proj.resolve(c, "step")
+        loc = stepf.loc() if stepf else c.loc()
+        if c.name not in rk.NOMINAL_ORDER:
+            check.undecided("DT-LOCAL", c.qualname, "integrator class unknown to the checker's table", loc)
+            continue
+        try:
+            ai, outs = run_step(proj, c)
+            T = rk.extract(outs[0], c.name)
+        except AnalysisError as e:
+            check.undecided("DT-LOCAL", c.qualname, "abstract interpretation failed: %s" % e, loc)
+            continue
+        bad = [t for r, t in T.problems if r == "AFF-UPDATE" and ("reduced time step" in t or "not advanced with the step argument" in t)]
+        if bad:
+            check.violation("DT-LOCAL", c.qualname, "%s: with a local-time-step array the cells are not advanced with their own step" % bad[0], loc, key="local-update")
+        else:
+            check.ok("DT-LOCAL", c.qualname, "every stage and the final update multiply the residual by the step argument itself (each cell's own value under dtlocal); only the time uses its minimum", loc)
 
 
 def body(check):
@@ -115,11 +152,8 @@ def body(check):
     for key in KEYS:
         check.guarded("DT-FORMULA", key, lambda: formula(check, key))
     check.guarded("DT-CELLSIZE", "modeldisc", lambda: cellsize(check))
+    check.guarded("DT-LOCAL", "integration", lambda: local_update(check))
     res, info = analyse_solve(check.proj)
     report(check, res, ("DRV-DT-MIN",))
-    try:
-        from ..units import check_timestep_units
-    except ImportError:
-        check_timestep_units = None
-    if check_timestep_units is not None:
-        check_timestep_units(check, "UNIT-HOMOG")
+    from ..units import check_timestep_units
+    check_timestep_units(check, "UNIT-HOMOG")
